@@ -777,7 +777,8 @@ def separator_condition_rule(ctx, prefix):
             return adjacency_test(e["l"], depth) or adjacency_test(e["r"], depth)
         if e.get("k") == "binary" and e["op"] == "==":
             l_, r_ = sir.expr_str(e["l"]).replace(" ", ""), sir.expr_str(e["r"]).replace(" ", "")
-            return any(a.startswith("self.") and "position" in b and not b.startswith("self.") for a, b in ((l_, r_), (r_, l_)))
+            # the whole position, not a component of it (same line is not adjacency)
+            return any(re.fullmatch(r"self(\.\w+)+", a) and re.fullmatch(r"(Some\()?\w+\.position\)?", b) for a, b in ((l_, r_), (r_, l_)))
         return False
     for n in seps:
         for kind, subj, pol in G.get(id(n), []):
@@ -848,6 +849,33 @@ def separator_condition_rule(ctx, prefix):
                       "tokens built outside the reader carry no source end (%d constructors), the reader records it (%s)" % (len(ends) - len(src_ok), ", ".join(s_.split("::")[-1] for s_ in src_ok)) if ends and not gen_bad and src_ok else
                       "a generated token claims a source end: %s" % gen_bad[:2] if gen_bad else "no constructor of the token type sets the source end",
                       witness=None if not gen_bad else "`a+.5rpx`: the rewritten `+0.0667vw`.. tokens are glued to neighbours they did not touch"))
+    if adjacency:
+        # (3) the source end is sampled after the token has been read: an end taken before the read is the token's own start, and
+        # nothing would ever be adjacent
+        rd = [g for g in ctx.sc.fns if g.body and g.base == "StepParser" and any(
+            n.get("k") == "struct" and n["path"].split("::")[-1] in ("StepToken", "Self") and any(x["name"] == "end" for x in n["fields"]) for n in sir.walk(g.body))]
+        okr, dsc = None, "the reader does not build the token in a form this rule reads"
+        for g in rd:
+            order = []
+            for n in sir.walk(g.body):
+                if n.get("k") == "mcall" and n["m"].startswith("next") and "parser" in sir.expr_str(n["recv"]):
+                    order.append(("read", n))
+                def samples(e_):
+                    return any(y_.get("k") == "mcall" and y_["m"] == "position" and not y_["args"] for y_ in sir.walk(e_))
+                if n.get("k") == "local" and n["pat"].get("k") == "p_ident" and n["pat"].get("name") == "end" and n.get("init") is not None:
+                    order.append(("end" if samples(n["init"]) else "stale", n))
+                if n.get("k") == "struct" and n["path"].split("::")[-1] in ("StepToken", "Self"):
+                    for x in n.get("fields", []):
+                        if x["name"] == "end" and sir.expr_str(x["e"]).replace(" ", "") != "end":
+                            order.append(("end" if samples(x["e"]) else "stale", n))
+            kinds = [k_ for k_, _n in order]
+            if "stale" in kinds:
+                okr, dsc = False, "the source end is not sampled from the reader's position (it is copied from a value taken earlier)"
+            elif "read" in kinds and "end" in kinds:
+                okr = kinds.index("read") < kinds.index("end") and all(k_ != "read" for k_ in kinds[kinds.index("end"):])
+                dsc = "the source end is the reader's position %s the token has been read" % ("after" if okr else "BEFORE")
+        out.append(ob("C08.sep/adjacency/end-after-read", okr, ctx.where(rd[0]) if rd else ctx.where(f), dsc,
+                      witness=None if okr is not False else "no token is ever adjacent to its predecessor: `U+0-7F` is `U +0 -7F` again"))
     out.append(ob("%s.sep/adjacency" % prefix, bool(adjacency) if (asked or extra or adjacency) else None, ctx.where(f),
                   "the blank is left out when the token touched its predecessor in the source (`%s`)" % adjacency[0] if adjacency else
                   "the blank between two tokens is decided from their serialization types alone: a space is inserted into `U+0-7F` and `2n+1`",
